@@ -77,6 +77,24 @@ def step1 (t : LTrie) (line : String) : LTrie × String :=
 def step (s : DState) (line : String) : DState × String :=
   match splitWords line with
   | ["new"] => ({ cur := LTrie.empty, snaps := [], ndb := NDb.empty }, "ok")
+  | ["rlpstr", x] =>
+    match ofHex? x with
+    | some x => (s, toHex (rlpString x))
+    | none => (s, "bad-op")
+  | "rlplist" :: xs =>
+    match xs.mapM ofHex? with
+    | some items => (s, toHex (rlpList (items.flatMap rlpString)))
+    | none => (s, "bad-op")
+  | ["rlpsplit", x] =>
+    match ofHex? x with
+    | some x =>
+      match rlpSplit x with
+      | some r =>
+        let kind := match r.1 with | .byte => "byte" | .string => "string" | .list => "list"
+        let cnt := match countValues x.length x with | some n => toString n | none => "count-error"
+        (s, kind ++ " " ++ toHex r.2.1 ++ " " ++ toHex r.2.2 ++ " " ++ cnt)
+      | none => (s, "split-error")
+    | none => (s, "bad-op")
   | ["dbstate"] =>
     (s, "mem=" ++ keyDigest (s.ndb.mem.map (·.1)) ++ " disk=" ++ keyDigest (s.ndb.disk.map (·.1)))
   | ["node", h] =>
